@@ -58,9 +58,10 @@ struct System {
   // optional hook run after every assignment change (e.g. re-derive dependent parameters)
   std::function<void(Params&)> derive;
   std::vector<std::string> extra_props;  // further properties its expectations are tagged with (e.g. C07 gradients)
+  bool pointwise_admissibility;  // an inadmissible (assignment, point) pair drops only that point, not the whole assignment
   bool base_from_default;  // base = library defaults x distinct factors in (1, 1.07) instead of the generic base
   int max_dev_quick, max_dev_thorough;
-  System() : dim(1), base_from_default(false), max_dev_quick(1), max_dev_thorough(2) {}
+  System() : dim(1), pointwise_admissibility(false), base_from_default(false), max_dev_quick(1), max_dev_thorough(2) {}
 };
 
 std::vector<System>& e1_systems();
